@@ -15,7 +15,7 @@ from bctmc.tally import Tally
 from bctmc import dtypes
 
 PROPERTY = 'C12'
-RULE = ('call sequences: for every ordered pair (A,B) of binary 3-node digraphs, binary 4-node graphs and 3-node graphs over {0,1,2}, what the routine returned for A is unchanged after it was called on B; element types: every routine also on int64 / int32 / uint8 / bool copies of all 3-node digraphs and 4-node graphs over {0,1,2} (same values as for float64; integers must not raise, a boolean matrix may be rejected with TypeError); Floyd: the structured 7-10 node family of bctmc/named.py (binary, lengths {1,2},{1,2,3}, near-tie) and all 3-node digraphs / 4-node graphs over lengths {1,2,3}, all binary 4-node digraphs, dyadic weights '
+RULE = ('thorough only: a 1030-node ring with chords (paths from / to the last six nodes walked, distances against scipy Dijkstra); call sequences: for every ordered pair (A,B) of binary 3-node digraphs, binary 4-node graphs and 3-node graphs over {0,1,2}, what the routine returned for A is unchanged after it was called on B; element types: every routine also on int64 / int32 / uint8 / bool copies of all 3-node digraphs and 4-node graphs over {0,1,2} (same values as for float64; integers must not raise, a boolean matrix may be rejected with TypeError); Floyd: the structured 7-10 node family of bctmc/named.py (binary, lengths {1,2},{1,2,3}, near-tie) and all 3-node digraphs / 4-node graphs over lengths {1,2,3}, all binary 4-node digraphs, dyadic weights '
         '{1,1/2,1/4} with inv and log, the exact near-tie alphabets {1,2,2+2^-20} and {1,2^20,2^20+1}, and the float near-tie alphabets {0.1,0.2,0.3} / {0.2,0.4,0.6} (0.1+0.2 != 0.3 in '
         'binary floating point), lengths {1,2} on all 59 049 5-node graphs, every ordered (s,t) (thorough: lengths {1,2} on all 4-node digraphs); '
         'navigation: binary L on 4 nodes x all symmetric D over {1,2,3}, L over {0,1,2} x D over {1,2}, max_hops in '
@@ -94,6 +94,8 @@ def plan(ctx):
         tot = ss.und_count(n, la)
         for (a, b) in ss.ranges(tot, tot):
             units.append(('nav', name, a, b))
+    if ctx.thorough:
+        units.append(('big_floyd', 0, 0, 0))
     for name, (directed, n, alpha) in SEQ.items():
         tot = ss.dir_count(n, alpha) if directed else ss.und_count(n, alpha)
         for (a, b) in ss.ranges(tot, 8):
@@ -264,7 +266,63 @@ def work_sequence(unit):
 SEQ = {'seq_dir3': (True, 3, (0, 1)), 'seq_und4': (False, 4, (0, 1)), 'seq_len3': (False, 3, (0, 1, 2))}
 
 
+def work_big_floyd():
+    """thorough only: 1030 nodes (beyond 1024: a blocked implementation switches blocks there); ring with chords and
+    lengths {1,2,3}; every path from / to the last six nodes is walked, distances against scipy's Dijkstra."""
+    from scipy.sparse.csgraph import dijkstra
+    t = Tally(PROPERTY)
+    n = 1030
+    X = np.zeros((n, n))
+    for i in range(n):
+        X[i, (i + 1) % n] = X[(i + 1) % n, i] = 1.0 + (i % 3)
+        if i % 17 == 0:
+            j = (i * 7 + 300) % n
+            if j != i:
+                X[i, j] = X[j, i] = 2.0
+    X[5, :] = 0
+    X[:, 5] = 0          # one unreachable node
+    st, out = guarded(bct.distance_wei_floyd, X.copy(), _timeout=3000)
+    t.c['evaluations'] += 1
+    case = {'family': 'big_floyd', 'n': n}
+    if st != 'ok':
+        t.viol('distance_wei_floyd', 'raises', case, observed=out)
+        return t
+    SPL, hops, Pmat = out
+    D = dijkstra(X, directed=True)
+    if not np.allclose(np.where(np.isinf(SPL), -1, SPL), np.where(np.isinf(D), -1, D)):
+        t.viol('distance_wei_floyd', 'distance', case, observed=float(np.nanmax(np.abs(np.where(np.isinf(SPL), 0, SPL) - np.where(np.isinf(D), 0, D)))))
+    for s_ in list(range(n - 6, n)) + [0, 5, 511, 1023]:
+        for t_ in range(0, n, 7):
+            if s_ == t_:
+                continue
+            for (a, b) in ((s_, t_), (t_, s_)):
+                st, path = guarded(bct.retrieve_shortest_path, a, b, hops, Pmat)
+                t.c['evaluations'] += 1
+                c = dict(case, s=a, t=b)
+                if st != 'ok':
+                    t.viol('retrieve_shortest_path', 'raises', c, observed=path)
+                    continue
+                p = [int(x) for x in np.asarray(path).ravel()]
+                if np.isinf(D[a, b]):
+                    if p:
+                        t.viol('retrieve_shortest_path', 'empty_iff_unreachable', c, observed=p[:10])
+                    continue
+                if not p or p[0] != a or p[-1] != b:
+                    t.viol('retrieve_shortest_path', 'endpoints', c, observed=p[:10])
+                    continue
+                if any(X[u, v] == 0 for u, v in zip(p[:-1], p[1:])):
+                    t.viol('retrieve_shortest_path', 'steps_are_connections', c, observed=p[:10])
+                    continue
+                ln = sum(X[u, v] for u, v in zip(p[:-1], p[1:]))
+                if abs(ln - D[a, b]) > 1e-9 or len(p) - 1 != hops[a, b]:
+                    t.viol('retrieve_shortest_path', 'reported_length_and_hops', c, observed=[ln, len(p) - 1], expected=[D[a, b], hops[a, b]])
+    t.c['nontrivial'] += 1
+    return t
+
+
 def work(unit):
+    if unit[0] == 'big_floyd':
+        return work_big_floyd()
     if unit[0] == 'seq':
         return work_sequence(unit)
     if unit[0] == 'etype':
@@ -311,6 +369,8 @@ def replay(rec):
         return dtypes.replay(PROPERTY, ETYPE_FUNCS, rec['case'])
     t = Tally(PROPERTY)
     c = rec['case']
+    if c.get('family') == 'big_floyd':
+        return work_big_floyd()
     if 'then' in c:
         name = c['family']
         directed, n, alpha = SEQ[name]
